@@ -185,6 +185,39 @@ def install(cobyqa):
         return build_system
     wrap(M, "build_system", mk_build_system)
 
+    # ---- determinism seam: memory layout of the linear-constraint matrices ----------
+    # OpenBLAS picks its gemv kernel by memory layout, and numpy's advanced indexing /
+    # matmul return arrays whose layout is unspecified; two statements of one problem can
+    # therefore round A @ x differently by one ulp.  In paired (C10) worlds the layout is
+    # normalised to C order in both runs; values are never changed.
+    try:
+        base_lc = P.LinearConstraint
+
+        class _LayoutLinearConstraint(base_lc):
+            def __init__(self, A, *a, **k):
+                ctx = cur()
+                if ctx is not None and getattr(ctx, "normalize_layout", False):
+                    A = np.ascontiguousarray(A)
+                super().__init__(A, *a, **k)
+
+        _LayoutLinearConstraint.__name__ = "LinearConstraint"
+        P.LinearConstraint = _LayoutLinearConstraint
+    except Exception:
+        MISSING.append("problem.LinearConstraint")
+
+    def mk_lcs_init(orig):
+        def __init__(self, *a, **k):
+            orig(self, *a, **k)
+            ctx = cur()
+            if ctx is not None and getattr(ctx, "normalize_layout", False):
+                try:
+                    self._a_ub = np.ascontiguousarray(self._a_ub)
+                    self._a_eq = np.ascontiguousarray(self._a_eq)
+                except Exception:
+                    pass
+        return __init__
+    wrap(P.LinearConstraints, "__init__", mk_lcs_init)
+
     # ---- Problem ------------------------------------------------------------
     def mk_pb_init(orig):
         def __init__(self, *a, **k):
